@@ -29,6 +29,84 @@ Proof.
   repeat split; [apply is_ty_eq, H1|apply negb_true_iff, H2|apply no_field_eq, H3].
 Qed.
 
+(* ---------- comments and parts ---------- *)
+Lemma filter_comm {A} (p q : A -> bool) l : filter p (filter q l) = filter q (filter p l).
+Proof.
+  induction l as [|x l IH]; [reflexivity|]. cbn [filter].
+  destruct (q x) eqn:Q, (p x) eqn:P; cbn [filter]; rewrite ?Q, ?P, IH; reflexivity.
+Qed.
+
+Lemma filter_idem {A} (p : A -> bool) l : filter p (filter p l) = filter p l.
+Proof.
+  induction l as [|x l IH]; [reflexivity|]. cbn [filter].
+  destruct (p x) eqn:P; cbn [filter]; rewrite ?P, IH; reflexivity.
+Qed.
+
+Lemma filter_andb {A} (p q : A -> bool) l : filter (fun x => p x && q x) l = filter q (filter p l).
+Proof.
+  induction l as [|x l IH]; [reflexivity|]. cbn [filter].
+  destruct (p x) eqn:P; cbn [filter andb]; [destruct (q x)|]; rewrite IH; reflexivity.
+Qed.
+
+(* the named parts are the named ones among the parts *)
+Lemma named_parts_eq n : named_parts n = filter c_named (parts n).
+Proof. unfold named_parts, named_kids, parts. apply filter_comm. Qed.
+
+Lemma parts_all n : forallb not_comment (parts n) = true.
+Proof.
+  unfold parts. induction (c_kids n) as [|k r IH]; [reflexivity|]. cbn [filter].
+  destruct (not_comment k) eqn:E; [cbn [forallb]; rewrite E, IH; reflexivity|exact IH].
+Qed.
+
+(* a node whose type is not a comment type is not a comment *)
+Lemma not_comment_ty k :
+  bytes_eqb (c_ty k) "block_comment" = false -> bytes_eqb (c_ty k) "line_comment" = false ->
+  not_comment k = true.
+Proof. unfold not_comment, is_comment, is_ty. intros -> ->. reflexivity. Qed.
+
+Lemma comment_not_assign k : not_comment k = false -> is_ty "=" k = false.
+Proof.
+  unfold not_comment, is_comment, is_ty. intro H. apply negb_false_iff in H.
+  apply orb_true_iff in H as [H|H]; apply bytes_eqb_true in H; rewrite H; vm_compute; reflexivity.
+Qed.
+
+(* under [comments_ok] the first child carrying a field name is a part *)
+Lemma comments_after_find f : forall ks seen,
+  comments_after seen ks = true -> existsb (has_field f) seen = false ->
+  find (has_field f) ks = find (has_field f) (filter not_comment ks).
+Proof.
+  induction ks as [|k r IH]; intros seen Hc Hs; [reflexivity|].
+  cbn [comments_after] in Hc. cbn [find filter]. destruct (not_comment k) eqn:Ek.
+  - cbn [find]. destruct (has_field f k) eqn:Ef; [reflexivity|].
+    apply (IH (k :: seen) Hc). cbn [existsb]. rewrite Ef, Hs. reflexivity.
+  - apply andb_true_iff in Hc as [Hk Hr].
+    assert (Ef : has_field f k = false).
+    { unfold has_field. destruct (c_field k) as [g|] eqn:Eg; [|reflexivity].
+      destruct (bytes_eqb g f) eqn:E; [|reflexivity].
+      apply bytes_eqb_true in E. subst g. rewrite Hs in Hk. discriminate Hk. }
+    rewrite Ef. apply (IH seen Hr Hs).
+Qed.
+
+Lemma child_by_field_parts n f :
+  comments_ok n = true -> child_by_field n f = find (has_field f) (parts n).
+Proof. intro H. exact (comments_after_find f (c_kids n) [] H eq_refl). Qed.
+
+Lemma find_field_parts n f :
+  comments_ok n = true ->
+  find (fun k => match c_field k with Some g => bytes_eqb g f | None => false end) (c_kids n)
+  = find (fun k => match c_field k with Some g => bytes_eqb g f | None => false end) (parts n).
+Proof. exact (child_by_field_parts n f). Qed.
+
+(* the initializer loop of the builder sees the parts only *)
+Lemma init_text_parts src : forall ks v,
+  init_text src ks v = init_text src (filter not_comment ks) v.
+Proof.
+  induction ks as [|k r IH]; intro v; [reflexivity|]. cbn [init_text filter].
+  destruct (not_comment k) eqn:E.
+  - cbn [init_text]. rewrite filter_idem. apply IH.
+  - rewrite (comment_not_assign k E). apply IH.
+Qed.
+
 (* ---------- automation ---------- *)
 (* evaluate comparisons of literal byte strings *)
 Ltac ev_eqb :=
@@ -140,11 +218,23 @@ Ltac read_kids Ek :=
   rewrite ?Ek; cbn [nth_error find filter opt_content]; use_atoms;
   cbn [nth_error find filter opt_content].
 
+(* open a shape hypothesis over the parts [Hs : is_ty T n && match parts n with ... end = true] *)
+Ltac open_parts Hs n Hty Ek :=
+  apply andb_true_iff in Hs as [Hty Hs]; apply is_ty_eq in Hty;
+  destruct (parts n) eqn:Ek; [try discriminate Hs|];
+  split_shape Hs; atoms.
+
+Ltac read_parts Ek :=
+  unfold part_at; rewrite ?named_parts_eq, ?Ek; cbn [nth_error find filter opt_content deref bind];
+  use_atoms; cbn [nth_error find filter opt_content deref bind].
+
+(* the builder reads the parts of an if statement by field name, as the specification does *)
 Theorem if_decoded src file prev n :
   if_shape n = true ->
   entities_of src file prev n = Ok [stmt_entity "ifstmt" "IfStmt" src n file (if_spec src n)].
 Proof.
-  unfold if_shape. intro Hs. open_shape Hs n Hty Ek; dispatch Hty; unfold if_spec; read_kids Ek; reflexivity.
+  unfold if_shape. intro Hs. apply andb_true_iff in Hs as [Hs _]. apply andb_true_iff in Hs as [Hty _].
+  apply is_ty_eq in Hty. dispatch Hty. reflexivity.
 Qed.
 Print Assumptions if_decoded.
 
@@ -154,7 +244,10 @@ Lemma if_spec_explicit src n :
   exists c t, child_by_field n "condition" = Some c /\ child_by_field n "consequence" = Some t
     /\ if_spec src n = SIf (Some (content src c)) (content src t) (field_text src n "alternative").
 Proof.
-  unfold if_shape. intro Hs. open_shape Hs n Hty Ek; unfold if_spec; read_kids Ek;
+  unfold if_shape. intro Hs. apply andb_true_iff in Hs as [Hs Hk]. apply andb_true_iff in Hs as [Hty Hc].
+  unfold if_spec, field_text_opt, field_text. rewrite !child_by_field_parts by exact Hc.
+  destruct (parts n) eqn:Ek; [discriminate Hk|].
+  split_shape Hk; atoms; cbn [find]; use_atoms; cbn [opt_content];
     do 2 eexists; repeat split; reflexivity.
 Qed.
 
@@ -162,7 +255,8 @@ Theorem while_decoded src file prev n :
   while_shape n = true ->
   entities_of src file prev n = Ok [stmt_entity "while_stmt" "WhileStmt" src n file (while_spec src n)].
 Proof.
-  unfold while_shape. intro Hs. open_shape Hs n Hty Ek; dispatch Hty; unfold while_spec; read_kids Ek; reflexivity.
+  unfold while_shape. intro Hs. apply andb_true_iff in Hs as [Hs _]. apply andb_true_iff in Hs as [Hty _].
+  apply is_ty_eq in Hty. dispatch Hty. reflexivity.
 Qed.
 Print Assumptions while_decoded.
 
@@ -170,7 +264,10 @@ Lemma while_spec_explicit src n :
   while_shape n = true ->
   exists c, child_by_field n "condition" = Some c /\ while_spec src n = SWhile (Some (content src c)).
 Proof.
-  unfold while_shape. intro Hs. open_shape Hs n Hty Ek; unfold while_spec; read_kids Ek;
+  unfold while_shape. intro Hs. apply andb_true_iff in Hs as [Hs Hk]. apply andb_true_iff in Hs as [Hty Hc].
+  unfold while_spec, field_text_opt. rewrite !child_by_field_parts by exact Hc.
+  destruct (parts n) eqn:Ek; [discriminate Hk|].
+  split_shape Hk; atoms; cbn [find]; use_atoms; cbn [opt_content];
     eexists; split; reflexivity.
 Qed.
 
@@ -219,7 +316,7 @@ Theorem yield_decoded src file prev n :
   entities_of src file prev n = Ok [stmt_entity "yield" "YieldStmt" src n file (yield_spec src n)].
 Proof.
   unfold yield_shape. intro Hs.
-  open_shape Hs n Hty Ek; dispatch Hty; unfold yield_spec; read_kids Ek; reflexivity.
+  open_parts Hs n Hty Ek; dispatch Hty; unfold yield_spec; read_parts Ek; reflexivity.
 Qed.
 Print Assumptions yield_decoded.
 
@@ -228,7 +325,7 @@ Theorem assert_decoded src file prev n :
   entities_of src file prev n = Ok [stmt_entity "assert" "AssertStmt" src n file (assert_spec src n)].
 Proof.
   unfold assert_shape. intro Hs.
-  open_shape Hs n Hty Ek; dispatch Hty; unfold assert_spec; read_kids Ek; reflexivity.
+  open_parts Hs n Hty Ek; dispatch Hty; unfold assert_spec; read_parts Ek; reflexivity.
 Qed.
 Print Assumptions assert_decoded.
 
@@ -237,7 +334,7 @@ Theorem return_decoded src file prev n :
   entities_of src file prev n = Ok [stmt_entity "return" "ReturnStmt" src n file (return_spec src n)].
 Proof.
   unfold return_shape. intro Hs.
-  open_shape Hs n Hty Ek; dispatch Hty; unfold return_spec; read_kids Ek; reflexivity.
+  open_parts Hs n Hty Ek; dispatch Hty; unfold return_spec; read_parts Ek; reflexivity.
 Qed.
 Print Assumptions return_decoded.
 
@@ -253,22 +350,26 @@ Proof.
     exists (k :: m), kl. rewrite E. repeat split; [exact Ht|]. cbn [filter]. rewrite Hn, Hf. reflexivity.
 Qed.
 
-(* D29 pinned: the builder's statement list is the block's statements, in source order, wrapped in
-   the texts of the two brace tokens *)
+(* D29 pinned: the builder's statement list is the block's statements (the named children that are
+   not comments), in source order, wrapped in the texts of the two brace tokens *)
 Theorem block_stmts_with_braces src file prev n :
   block_shape n = true -> block_braces src n = true ->
   entities_of src file prev n = Ok [stmt_entity "block" "BlockStmt" src n file (block_spec src n)]
-  /\ block_spec src n = SBlock (["{"] ++ List.map (content src) (named_kids n) ++ ["}"]).
+  /\ block_spec src n = SBlock (["{"] ++ List.map (content src) (named_parts n) ++ ["}"]).
 Proof.
   unfold block_shape, block_braces. intros Hs Hb. apply andb_true_iff in Hs as [Hty Hs]. apply is_ty_eq in Hty.
   split; [|reflexivity].
-  dispatch Hty. unfold block_spec, block_stmts, named_kids.
+  dispatch Hty. unfold block_spec, block_stmts. rewrite named_parts_eq. unfold parts.
   destruct (c_kids n) as [|k0 r] eqn:Ek; [discriminate|].
   apply andb_true_iff in Hs as [Hk0 Hr]. apply block_tail_split in Hr as [m [kl [E [Hkl Hm]]]]. subst r.
-  apply tok_eq in Hk0 as [_ [Hn0 _]]. apply tok_eq in Hkl as [_ [Hnl _]].
+  apply tok_eq in Hk0 as [Ht0 [Hn0 _]]. apply tok_eq in Hkl as [Htl [Hnl _]].
+  assert (Hc0 : not_comment k0 = true) by (apply not_comment_ty; rewrite Ht0; reflexivity).
+  assert (Hcl : not_comment kl = true) by (apply not_comment_ty; rewrite Htl; reflexivity).
   apply andb_true_iff in Hb as [Hb0 Hbl]. rewrite rev_app_distr in Hbl. cbn [rev app] in Hbl.
   apply bytes_eqb_true in Hb0, Hbl.
-  cbn [filter map]. rewrite Hn0, filter_app, Hm. cbn [filter]. rewrite Hnl, app_nil_r.
+  cbn [filter]. rewrite Hc0. cbn [filter map]. rewrite Hn0, !filter_app. cbn [filter]. rewrite Hcl.
+  cbn [filter]. rewrite Hnl, app_nil_r.
+  rewrite (filter_comm c_named not_comment m), Hm.
   rewrite map_app. cbn [map]. rewrite Hb0, Hbl. reflexivity.
 Qed.
 Print Assumptions block_stmts_with_braces.
@@ -295,6 +396,15 @@ Proof.
   apply filter_ext_in. intros x [<-|Hx].
   - apply tok_eq in H0 as [Hy [Hn _]]. rewrite Hy, Hn. reflexivity.
   - apply (args_tail_named r Hr x Hx).
+Qed.
+
+(* what the builder keeps of a constructor's argument list: the named children that are not comments *)
+Lemma arglist_args a :
+  arglist_shape a = true ->
+  filter (fun x => negb (punct_stop (c_ty x)) && not_comment x) (c_kids a) = named_parts a.
+Proof.
+  intro H. rewrite (filter_andb (fun x => negb (punct_stop (c_ty x))) not_comment).
+  rewrite (arglist_nonpunct a H). reflexivity.
 Qed.
 
 Lemma arglist_ty a : arglist_shape a = true -> c_ty a = "argument_list".
@@ -342,7 +452,7 @@ Theorem new_decoded src file prev n :
     /\ n_new e = Some (new_spec src n).
 Proof.
   unfold new_shape, new_type. intro Hs. open_shape Hs n Hty Ek; arg_ty;
-    match goal with H : arglist_shape ?a = true |- _ => pose proof (arglist_nonpunct a H) as Hnp end;
+    match goal with H : arglist_shape ?a = true |- _ => pose proof (arglist_args a H) as Hnp end;
     dispatch Hty; unfold new_attrs, new_spec; read_kids Ek; cbn [fold_left]; use_atoms;
     match goal with H : _ || _ = true |- _ => apply orb_true_iff in H; destruct H; atoms end;
     use_atoms; rewrite Hnp;
@@ -382,6 +492,8 @@ Ltac crack :=
       let E := fresh "Ek" in destruct (c_kids k) eqn:E; try discriminate H
   | H : context [match ?l with [] => _ | _ :: _ => _ end] |- _ =>
       is_var l; destruct l; try discriminate H
+  | H : context [match parts ?k with [] => _ | _ :: _ => _ end] |- _ =>
+      let E := fresh "Ep" in destruct (parts k) eqn:E; try discriminate H
   | H : mods_ok _ = true |- _ => apply mods_ok_eq in H; destruct H
   end.
 
@@ -394,6 +506,19 @@ Ltac unfold_specs :=
     annotations_spec, method_name_spec, method_ret_spec, method_params_spec, method_throws_spec,
     class_name_spec, class_super_spec, class_ifaces_spec,
     field_text_opt, field_text, child_of_type, child, child_by_field, named_kids.
+
+(* a declarator whose parts are known: read its fields and its initializer off the parts *)
+Ltac decl_parts src :=
+  match goal with
+  | Hc : comments_ok ?d = true, Ep : parts ?d = _ |- _ =>
+      let Hnc := fresh "Hnc" in
+      pose proof (parts_all d) as Hnc; rewrite Ep in Hnc; cbn [forallb] in Hnc; crack;
+      rewrite ?(find_field_parts d) by exact Hc;
+      rewrite ?(init_text_parts src (c_kids d));
+      change (filter not_comment (c_kids d)) with (parts d);
+      rewrite ?Ep;
+      repeat match goal with H : not_comment ?k = true |- context [not_comment ?k] => rewrite H end
+  end.
 
 Theorem var_decoded src file prev n :
   var_shape n = true ->
@@ -408,9 +533,10 @@ Proof.
   unfold var_shape. intro Hs. apply andb_true_iff in Hs as [Hty Hs].
   stage Hs; crack; unfold var_type_ok, declarator_shape in *; crack; atoms;
   apply orb_true_iff in Hty; destruct Hty as [Hty|Hty]; apply is_ty_eq in Hty;
-  dispatch Hty; unfold var_attrs; norm; unfold declarator, child_by_field; norm;
+  dispatch Hty; unfold var_attrs; norm; unfold declarator, child_by_field; decl_parts src; norm;
+  cbn [init_text]; norm; decl_parts src; norm;
   (eexists; split; [reflexivity|]);
-  cbn [n_type n_name n_dtype n_value n_scope n_mod]; unfold_specs; norm;
+  cbn [n_type n_name n_dtype n_value n_scope n_mod]; unfold_specs; norm; decl_parts src; norm;
   rewrite ?app_nil_r; repeat match goal with |- context [if ?b then _ else _] => destruct b end;
   repeat split; reflexivity.
 Qed.
@@ -853,5 +979,104 @@ Example var_identifier_initializer_example :
      = Some [("name", ["x"]); ("dtype", ["int"]); ("value", ["y"]); ("scope", ["local"]); ("vis", [""])]
   /\ option_map (List.map n_name) (match entities_of var2_src "A.java" None var2_cst with Ok l => Some l | Panic _ => None end)
      = Some ["x"].
+Proof. vm_compute. repeat split; reflexivity. Qed.
+
+(* ---------- comments between the parts (D43, repaired) ---------- *)
+Definition ents (r : result (list node)) : option (list node) :=
+  match r with Ok l => Some l | Panic _ => None end.
+
+(* the comment after the condition is reported under the condition's field name, as tree-sitter does *)
+Definition ifc_src : bytes := "if (x) /*c*/ y(); else z();".
+Definition ifc_cst : cst :=
+  L "if_statement" None 0 27
+    [T "if" 0 2; L "parenthesized_expression" (Some "condition") 3 6 [];
+     L "block_comment" (Some "condition") 7 12 [];
+     L "expression_statement" (Some "consequence") 13 17 []; T "else" 18 22;
+     L "line_comment" None 22 22 [];
+     L "expression_statement" (Some "alternative") 23 27 []].
+Example if_comment_example :
+  shape_of ifc_cst = "if"
+  /\ decode ifc_src None ifc_cst = Some [("cond", ["(x)"]); ("then", ["y();"]); ("else", ["z();"])]
+  /\ option_map (List.map n_stmt) (ents (entities_of ifc_src "A.java" None ifc_cst))
+     = Some [Some (SIf (Some "(x)") "y();" "z();")].
+Proof. vm_compute. repeat split; reflexivity. Qed.
+
+Definition retc_src : bytes := "return /*r*/ x;".
+Definition retc_cst : cst :=
+  L "return_statement" None 0 15
+    [T "return" 0 6; L "block_comment" None 7 12 []; L "identifier" None 13 14 []; T ";" 14 15].
+Example return_comment_example :
+  shape_of retc_cst = "return" /\ return_spec retc_src retc_cst = SReturn (Some "x")
+  /\ option_map (List.map n_stmt) (ents (entities_of retc_src "A.java" None retc_cst))
+     = Some [Some (SReturn (Some "x"))].
+Proof. vm_compute. repeat split; reflexivity. Qed.
+
+Definition assertc_src : bytes := "assert x > 0 //t
+ : ""neg"";".
+Definition assertc_cst : cst :=
+  L "assert_statement" None 0 26
+    [T "assert" 0 6; L "binary_expression" None 7 12 []; L "line_comment" None 13 16 [];
+     T ":" 18 19; L "string_literal" None 20 25 []; T ";" 25 26].
+Example assert_comment_example :
+  shape_of assertc_cst = "assert"
+  /\ assert_spec assertc_src assertc_cst = SAssert "x > 0" (Some """neg""")
+  /\ option_map (List.map n_stmt) (ents (entities_of assertc_src "A.java" None assertc_cst))
+     = Some [Some (SAssert "x > 0" (Some """neg"""))].
+Proof. vm_compute. repeat split; reflexivity. Qed.
+
+Definition blockc_src : bytes := "{ a(); /*c*/ b(); }".
+Definition blockc_cst : cst :=
+  L "block" None 0 19
+    [T "{" 0 1; L "expression_statement" None 2 6 []; L "block_comment" None 7 12 [];
+     L "expression_statement" None 13 17 []; T "}" 18 19].
+Example block_comment_example :
+  shape_of blockc_cst = "block" /\ side_ok blockc_src blockc_cst = true
+  /\ block_stmts blockc_src blockc_cst = ["a();"; "b();"]
+  /\ option_map (List.map n_stmt) (ents (entities_of blockc_src "A.java" None blockc_cst))
+     = Some [Some (SBlock ["{"; "a();"; "b();"; "}"])].
+Proof. vm_compute. repeat split; reflexivity. Qed.
+
+Definition callc_src : bytes := "run(1, /*c*/ x)".
+Definition callc_cst : cst :=
+  L "method_invocation" None 0 15
+    [L "identifier" (Some "name") 0 3 [];
+     L "argument_list" (Some "arguments") 3 15
+       [T "(" 3 4; L "decimal_integer_literal" None 4 5 []; T "," 5 6;
+        L "block_comment" None 7 12 []; L "identifier" None 13 14 []; T ")" 14 15]].
+Example call_comment_example :
+  shape_of callc_cst = "call"
+  /\ decode callc_src None callc_cst = Some [("name", ["run"]); ("args", ["1"; "x"])]
+  /\ option_map (List.map n_argv) (ents (entities_of callc_src "A.java" None callc_cst)) = Some [["1"; "x"]].
+Proof. vm_compute. repeat split; reflexivity. Qed.
+
+Definition classc_src : bytes := "class A implements I, /*c*/ J { }".
+Definition classc_cst : cst :=
+  L "class_declaration" None 0 33
+    [T "class" 0 5; L "identifier" (Some "name") 6 7 [];
+     L "super_interfaces" (Some "interfaces") 8 29
+       [T "implements" 8 18;
+        L "type_list" None 19 29
+          [L "type_identifier" None 19 20 []; T "," 20 21; L "block_comment" None 22 27 [];
+           L "type_identifier" None 28 29 []]];
+     L "class_body" (Some "body") 30 33 [T "{" 30 31; T "}" 32 33]].
+Example class_comment_example :
+  shape_of classc_cst = "class"
+  /\ class_ifaces_spec classc_src classc_cst = ["I"; "J"]
+  /\ option_map (List.map n_iface) (ents (entities_of classc_src "A.java" None classc_cst)) = Some [["I"; "J"]].
+Proof. vm_compute. repeat split; reflexivity. Qed.
+
+Definition varc_src : bytes := "int x = /**/ y /*z*/;".
+Definition varc_cst : cst :=
+  L "local_variable_declaration" None 0 21
+    [L "integral_type" (Some "type") 0 3 [];
+     L "variable_declarator" (Some "declarator") 4 20
+       [L "identifier" (Some "name") 4 5 []; T "=" 6 7; L "block_comment" None 8 12 [];
+        L "identifier" (Some "value") 13 14 []; L "block_comment" (Some "value") 15 20 []];
+     T ";" 20 21].
+Example var_comment_example :
+  shape_of varc_cst = "var"
+  /\ decode varc_src None varc_cst
+     = Some [("name", ["x"]); ("dtype", ["int"]); ("value", ["y"]); ("scope", ["local"]); ("vis", [""])]
+  /\ option_map (List.map n_value) (ents (entities_of varc_src "A.java" None varc_cst)) = Some ["y"].
 Proof. vm_compute. repeat split; reflexivity. Qed.
 End Examples.
